@@ -199,6 +199,49 @@ Definition side_okb (a : app) (ns : list node) (outs X : list vname) : bool :=
   (a_remove a || movableb (a_mask a) (renamed (a_dead a) (a_mask a) (firstn k ns))) &&
   disjointb X (names_nodes (skipn k ns)) && disjointb X outs.
 
+
+(* ---- executable side conditions of a KEEPING application (remove_nodes=False) ------------------- *)
+(* what a node reads: its present inputs and every name occurring in its subgraphs *)
+Definition uses (n : node) : list vname := present (n_ins n) ++ names_subs (n_subs n).
+Definition uses_nodes (l : list node) : list vname := flat_map uses l.
+
+(* the matched nodes of the window can be re-executed after the window and reproduce their values: a matched node
+   reads nothing that it or a later node of the window defines, and its outputs are not redefined later
+   (holds in any single-assignment graph; evaluated on the real matches) *)
+Fixpoint rerunnableb (mask : list bool) (ns : list node) : bool :=
+  match mask, ns with
+  | b :: mt, n :: t =>
+    (if b then disjointb (n_outs n ++ defs_nodes t) (uses n) && disjointb (n_outs n) (defs_nodes t) else true)
+    && rerunnableb mt t
+  | _, _ => true
+  end.
+
+(* names on which the graph may differ after a keeping application: what the replacement defines besides the
+   pattern outputs, and the dead names *)
+Definition keep_X (root : node) (dead : list (vname * vname)) (new : list node) : list vname :=
+  filter (fun x => negb (mem x (n_outs root))) (defs_nodes new) ++ n_outs (rename_outs dead root).
+
+Definition dummy_node : node := Node "" "" [] [] [] [].
+
+(* X0: the names on which the replacement may differ from the matched nodes run as a segment.
+   Every output of the root is a pattern output (renamed dead, redefined by the replacement). *)
+Definition keep_okb (a : app) (ns : list node) (outs X0 : list vname) : bool :=
+  let k := List.length (a_mask a) in
+  let win := firstn k ns in
+  let W0 := removelast win in
+  let root := last win dummy_node in
+  app_wf a ns && negb (a_remove a) &&
+  rerunnableb (a_mask a) win &&
+  disjointb (map fst (a_dead a)) (defs_nodes W0) &&
+  disjointb X0 (n_outs root) && subset (n_outs root) (defs_nodes (a_new a)) &&
+  disjointb (n_outs root ++ n_outs (rename_outs (a_dead a) root)) (uses_nodes (a_new a)) &&
+  disjointb (keep_X root (a_dead a) (a_new a)) (names_nodes (skipn k ns)) &&
+  disjointb (keep_X root (a_dead a) (a_new a)) outs.
+
+(* intermediates of the match and fresh names of the replacement *)
+Definition keep_X0 (a : app) (ns : list node) (pattern_outs : list vname) : list vname :=
+  removed_names a (firstn (List.length (a_mask a)) ns) pattern_outs.
+
 (* ---- replaying what the implementation did (correspondence) ------------------------------------ *)
 (* the names on which the two sides of a splice may differ: intermediates of the removed match (or the dead
    names of the kept match) and everything the replacement defines, except the pattern outputs themselves *)
@@ -254,21 +297,17 @@ with graph_eqb (g h : graph) {struct g} : bool :=
      | _, _ => false
      end) ns ms.
 
-(* side conditions that every application must satisfy whatever the rule's mode: well-formed, and X mentioned neither
-   after the root nor by the graph outputs.  For removing rules the full `side_okb` is required.  For keeping rules
-   the commutation part of `side_okb` (matched nodes movable past the later unmatched nodes of the window) is what the
-   soundness theorem additionally asks for; it fails when an interleaved unmatched node consumes an intermediate of
-   the kept match (legal for a keeping rule); such applications are counted, not rejected: they are outside the
-   proved side conditions and covered by the execution oracle only. *)
-Definition side_coreb (a : app) (ns : list node) (outs X : list vname) : bool :=
-  let k := List.length (a_mask a) in
-  app_wf a ns && disjointb X (names_nodes (skipn k ns)) && disjointb X outs.
+(* 0: the replay of the logged applications reproduces the observed final graph and every application satisfies the
+      executable side conditions of its soundness theorem (removing rule: side_okb with X = app_X; keeping rule:
+      keep_okb with X0 = keep_X0);
+   1: a path leads nowhere; 2: side conditions of a removing application fail; 3: ill-formed application;
+   4: final graph differs.  Second component: index of the offending application.  Third: number of keeping
+   applications outside the proved side conditions (counted, not rejected: e.g. a pattern output that is not
+   redefined by the replacement). *)
+Definition step_okb (a : app) (s : graph) (pouts : list vname) : bool :=
+  if a_remove a then side_okb a (g_nodes s) (g_outs s) (app_X a (g_nodes s) pouts)
+  else keep_okb a (g_nodes s) (g_outs s) (keep_X0 a (g_nodes s) pouts).
 
-(* 0: the replay of the logged applications reproduces the observed final graph and every application
-      satisfies the executable side conditions;
-   1: a path leads nowhere; 2: side conditions fail; 3: ill-formed application; 4: final graph differs.
-   Second component: index of the offending application.  Third: number of keeping applications outside the
-   proved side conditions. *)
 Fixpoint check_host_from (i unc : nat) (l : list (path * app * list vname)) (g final : graph) : nat * nat * nat :=
   match l with
   | [] => if graph_eqb g final then (0, i, unc) else (4, i, unc)
@@ -276,11 +315,10 @@ Fixpoint check_host_from (i unc : nat) (l : list (path * app * list vname)) (g f
     match site p g with
     | None => (1, i, unc)
     | Some s =>
-      let X := app_X a (g_nodes s) pouts in
-      let full := side_okb a (g_nodes s) (g_outs s) X in
-      if (if a_remove a then full else side_coreb a (g_nodes s) (g_outs s) X) then
+      let ok := step_okb a s pouts in
+      if ok || negb (a_remove a) then
         match apply_at p a g with
-        | Some g' => check_host_from (S i) (if full then unc else S unc) t g' final
+        | Some g' => check_host_from (S i) (if ok then unc else S unc) t g' final
         | None => (3, i, unc)
         end
       else (2, i, unc)
